@@ -68,6 +68,9 @@ func main() {
 		r := &rng{s: seed*0x9E3779B97F4A7C15 + 0x1234567}
 		emit := func(s string) { fmt.Fprintln(w, s) }
 		g(r, n, emit)
+	case "dump":
+		w.Flush()
+		dump(os.Stdout)
 	case "exec":
 		sc := bufio.NewScanner(os.Stdin)
 		sc.Buffer(make([]byte, 1<<20), 1<<26)
